@@ -70,8 +70,10 @@ pub fn interleave(base: &[StoreState], key: &rustic_core::repofile::MasterKey, a
     let mut timed_out = false;
     let mut released_early = false;
     let b_done = AtomicBool::new(false);
+    let fl = crate::evidence::current_flush();
     let res_a = std::thread::scope(|s| {
         let h = s.spawn(|| {
+            crate::evidence::set_flush(fl);
             let r = a.run(&env_a);
             done.store(true, Ordering::SeqCst);
             uni.0.cv.notify_all();
@@ -84,6 +86,7 @@ pub fn interleave(base: &[StoreState], key: &rustic_core::repofile::MasterKey, a
             // job of A while it waits. Two processes cannot do that to each other. When B makes no progress the gate
             // is opened; A and B then simply run concurrently - still a legal schedule for the property.
             let hb = s.spawn(|| {
+                crate::evidence::set_flush(fl);
                 let r = b.run(&env_b);
                 b_done.store(true, Ordering::SeqCst);
                 r
